@@ -4,6 +4,7 @@ import (
 	"context"
 	"fmt"
 	"io"
+	"strings"
 	"sync"
 
 	goat "github.com/avos-io/goat"
@@ -13,9 +14,13 @@ import (
 	"google.golang.org/grpc/stats"
 	"google.golang.org/grpc/status"
 
+	"github.com/avos-io/goat/gen/goatorepo"
+	"google.golang.org/protobuf/proto"
+
 	"goatverif/bed"
 	"goatverif/core"
 	"goatverif/svc"
+	"goatverif/wire"
 )
 
 // C20: interceptors and stats handlers see every RPC exactly once, in order.
@@ -49,7 +54,134 @@ func c20List(tier string) []c20Case {
 			}
 		}
 	}
+	for i, v := range []string{"idle", "unary-backlog", "stream-backlog"} {
+		for j, cause := range []string{"stop", "write-failure", "read-failure"} {
+			if v != "idle" && cause == "read-failure" {
+				continue // the read loop is parked in dispatch and does not read
+			}
+			out = append(out, c20Case{Kind: "conn-end/" + v, Outcome: cause, StatsSrv: 1 + (i+j)%3})
+		}
+	}
 	return out
+}
+
+// c20ConnEnd: exactly one ConnBegin and one ConnEnd per served connection, also when the connection
+// ends while the read loop is parked in dispatch (all unary workers busy with a 9th request pending,
+// or a stream whose handler does not read and whose queue is full).
+func c20ConnEnd(tier string, seed int64, idx int, c c20Case, res *core.Result) {
+	rec := &c20Rec{}
+	var sopts []goat.ServerOption
+	for j := 0; j < c.StatsSrv; j++ {
+		sopts = append(sopts, goat.StatsHandler(&c20Stats{rec, "s", j}))
+	}
+	h := bed.NewHooks()
+	h.Install()
+	impl := svc.NewImpl()
+	srv := goat.NewServer("srv", sopts...)
+	srv.RegisterService(&svc.Desc, impl)
+	gates := NewGates()
+	impl.DefU = func(ctx context.Context, tag string, req []byte) ([]byte, error) { gates.Wait("hold"); return req, nil }
+	impl.DefS = func(tag, kind string, ss grpc.ServerStream) error { gates.Wait("hold"); return nil }
+	l := wire.NewLink(0, false)
+	ctx, cancel := context.WithCancel(context.Background())
+	defer cancel()
+	served := make(chan struct{})
+	go func() { srv.Serve(ctx, l.B); close(served) }()
+	wire.NewPeer(ctx, l.A, nil)
+	body, _ := proto.Marshal(&svc.BV{Value: []byte("x")})
+	var reqs []*wire.Rpc
+	switch c.Kind {
+	case "conn-end/unary-backlog":
+		for i := 0; i < 10; i++ {
+			reqs = append(reqs, &wire.Rpc{Id: uint64(i + 1), Header: &goatorepo.RequestHeader{Method: svc.MUnary, Source: "c0", Destination: "srv"}, Body: &goatorepo.Body{Data: body}})
+		}
+	case "conn-end/stream-backlog":
+		hd := func() *goatorepo.RequestHeader { return &goatorepo.RequestHeader{Method: svc.MBidi, Source: "c0", Destination: "srv"} }
+		reqs = append(reqs, &wire.Rpc{Id: 1, Header: hd()})
+		for i := 0; i < 3; i++ {
+			reqs = append(reqs, &wire.Rpc{Id: 1, Header: hd(), Body: &goatorepo.Body{Data: body}})
+		}
+	}
+	go func() {
+		for _, r := range reqs {
+			if l.A.Write(ctx, r) != nil {
+				return
+			}
+		}
+	}()
+	quiet(tier) // handlers parked, read loop parked in dispatch (or idle in Read)
+	switch c.Outcome {
+	case "stop":
+		srv.Stop()
+	case "write-failure":
+		// a response is needed for a write to fail: let one handler answer into a failing transport
+		l.B.FailWrite()
+		if c.Kind == "conn-end/idle" {
+			go l.A.Write(ctx, &wire.Rpc{Id: 99, Header: &goatorepo.RequestHeader{Method: svc.MUnary, Source: "c0", Destination: "srv",
+				Headers: []*goatorepo.KeyValue{{Key: svc.TagKey, Value: "free"}}}, Body: &goatorepo.Body{Data: body}})
+			impl.SetUnary("free", func(ctx context.Context, tag string, req []byte) ([]byte, error) { return req, nil })
+		} else {
+			srv.Stop() // with every worker parked nothing is written; Stop ends the connection while the write side is already broken
+		}
+	case "read-failure":
+		l.B.FailRead()
+	}
+	st, snap := settle(tier, func() bool {
+		select {
+		case <-served:
+			return true
+		default:
+			return false
+		}
+	})
+	if st == "stuck" {
+		gates.OpenAll()
+		st, snap = settle(tier, func() bool {
+			select {
+			case <-served:
+				return true
+			default:
+				return false
+			}
+		})
+	}
+	gates.OpenAll()
+	if st != "ok" {
+		if st == "stuck" {
+			res.ViolateD("serve-does-not-return", map[string]any{"goat_goroutines": goatParked(snap)}, "%s, %s: Serve did not return", c.Kind, c.Outcome)
+		} else {
+			res.Verdict, res.Note = core.Inconclusive, "watchdog"
+		}
+	} else {
+		quiet(tier)
+		rec.mu.Lock()
+		for j := 0; j < c.StatsSrv; j++ {
+			nb, ne := 0, 0
+			for _, e := range rec.evs {
+				if e.Conn && e.Side == "s" && e.Handler == j {
+					if e.Type == "*stats.ConnBegin" {
+						nb++
+					}
+					if e.Type == "*stats.ConnEnd" {
+						ne++
+					}
+				}
+			}
+			if nb != 1 || ne != 1 {
+				res.Violate("conn-stats-count/"+c.Kind, "%s ended by %s: server stats handler %d saw %d ConnBegin and %d ConnEnd (want one each)", c.Kind, c.Outcome, j, nb, ne)
+			}
+		}
+		rec.mu.Unlock()
+		res.Stat("conn_end_scenarios", 1)
+	}
+	cancel()
+	l.Kill()
+	left, final := bed.Hygiene(watchdog(tier))
+	bed.Uninstall()
+	h.Fold(res)
+	if !final || len(left) > 0 {
+		res.Retire = true
+	}
 }
 
 type c20Event struct {
@@ -129,6 +261,10 @@ func (w *c20SS) SendMsg(m any) error {
 func c20Run(tier string, seed int64, idx int) *core.Result {
 	c := c20List(tier)[idx]
 	res := &core.Result{Verdict: core.Held, Sample: c, Sig: fmt.Sprintf("%+v", c), NonTrivial: true}
+	if strings.HasPrefix(c.Kind, "conn-end/") {
+		c20ConnEnd(tier, seed, idx, c, res)
+		return res
+	}
 	rec := &c20Rec{}
 	note := func(s string) { rec.mu.Lock(); rec.icpt = append(rec.icpt, s); rec.mu.Unlock() }
 	var uis []grpc.UnaryServerInterceptor
@@ -518,10 +654,10 @@ func init() {
 	core.Register(&core.Prop{
 		ID:    "C20",
 		Level: "exploration",
-		Rule:  "one RPC per case over the cross product server interceptor chain length 1..6 (ChainUnary/ChainStreamInterceptor, and the single-interceptor options for length 1) x client interceptor {none, one} x 1..3 stats handlers per side x 4 RPC kinds x 9 outcomes {ok, handler error, handler failing with io.EOF, cancel, cancel while a response sits uncollected in the read loop, manual deadline, transport failure, open failing in the transport write, call on a connection whose read already failed} (quick: a fixed third of the middle chain lengths). Every interceptor records enter/exit and edits context metadata, request, reply and error; every stats handler tags the context with a fresh token. All cases are distinct tuples and non-trivial.",
+		Rule:  "one RPC per case over the cross product server interceptor chain length 1..6 (ChainUnary/ChainStreamInterceptor, and the single-interceptor options for length 1) x client interceptor {none, one} x 1..3 stats handlers per side x 4 RPC kinds x 9 outcomes {ok, handler error, handler failing with io.EOF, cancel, cancel while a response sits uncollected in the read loop, manual deadline, transport failure, open failing in the transport write, call on a connection whose read already failed} (quick: a fixed third of the middle chain lengths). Every interceptor records enter/exit and edits context metadata, request, reply and error; every stats handler tags the context with a fresh token. Plus connection-level cases: one ConnBegin/ConnEnd per served connection when it ends by Stop / write failure / read failure while idle, while all 8 unary workers are busy with more requests pending, and while a stream whose handler does not read has a full queue. All cases are distinct tuples and non-trivial.",
 		Plan:  func(tier string, seed int64) int { return len(c20List(tier)) },
 		Run:   c20Run,
-		RequiredStats: func(string) []string { return []string{"rpcs", "stats_handler_rpc_views_checked"} },
+		RequiredStats: func(string) []string { return []string{"rpcs", "stats_handler_rpc_views_checked", "conn_end_scenarios"} },
 		Assumptions: []string{"goat offers one client interceptor slot; client-side chains longer than one are user code and not exercised"},
 	})
 }
